@@ -26,8 +26,15 @@ pub struct Payload {
 	pub leaf: u32,
 	pub val: AtomicU64,
 }
+thread_local! {
+	/// user code inside `Debug`: when set, formatting a payload on this thread panics (a `UserPanic`)
+	pub static FMT_PANIC: std::cell::Cell<bool> = const { std::cell::Cell::new(false) };
+}
 impl Debug for Payload {
 	fn fmt(&self, f: &mut std::fmt::Formatter<'_>) -> std::fmt::Result {
+		if FMT_PANIC.with(|p| p.get()) {
+			std::panic::resume_unwind(Box::new(rt::UserPanic(0xf07)));
+		}
 		write!(f, "P{}={}", self.leaf, self.val.load(Ordering::Relaxed))
 	}
 }
@@ -242,6 +249,8 @@ pub trait Coll: Sync {
 	fn try_read<'s>(&'s self, key: ThreadKey) -> Result<Box<dyn Held + 's>, ThreadKey>;
 	fn scoped(&self, write: bool, try_: bool, key: KeyArg<'_>, f: &mut BodyFn<'_>) -> Scoped;
 	fn debug(&self) -> String;
+	/// `RawLock::poison` (a safe, public method): every lock under the target refuses acquisition from now on
+	fn kill(&self);
 	/// Poisonable targets only
 	fn is_poisoned(&self) -> Option<bool> {
 		None
@@ -332,6 +341,7 @@ macro_rules! coll_impl {
 			<$ty>::try_lock(self, key).map(|g| held(g, |g| <$ty>::unlock(g)))
 		}
 		fn debug(&self) -> String { format!("{:?}", self) }
+		fn kill(&self) { happylock::lockable::RawLock::poison(self) }
 	};
 }
 
@@ -409,6 +419,7 @@ macro_rules! pois_impl {
 			}))
 		}
 		fn debug(&self) -> String { format!("{:?}", self) }
+		fn kill(&self) { happylock::lockable::RawLock::poison(self) }
 		fn is_poisoned(&self) -> Option<bool> { Some(Poisonable::is_poisoned(self)) }
 		fn clear_poison(&self) { Poisonable::clear_poison(self) }
 	};
@@ -445,6 +456,9 @@ impl Coll for M {
 	fn debug(&self) -> String {
 		format!("{:?}", self)
 	}
+	fn kill(&self) {
+		happylock::lockable::RawLock::poison(self)
+	}
 }
 
 // single RwLock
@@ -478,6 +492,9 @@ impl Coll for R {
 	}
 	fn debug(&self) -> String {
 		format!("{:?}", self)
+	}
+	fn kill(&self) {
+		happylock::lockable::RawLock::poison(self)
 	}
 }
 
@@ -619,6 +636,7 @@ coll_impl!(<'w> BoxedLockCollection<(OwnedLockCollection<[R; 0]>, &'w R, OwnedLo
 coll_impl!(<'w> RefLockCollection<'w, (OwnedLockCollection<[R; 0]>, &'w R, OwnedLockCollection<[R; 0]>, &'w R)>, "Ref<(Owned<[;0]>,&RwLock,Owned<[;0]>,&RwLock)>", rw);
 coll_impl!(<'w> RetryingLockCollection<(OwnedLockCollection<[R; 0]>, &'w R, OwnedLockCollection<[R; 0]>, &'w R)>, "Retrying<(Owned<[;0]>,&RwLock,Owned<[;0]>,&RwLock)>", rw);
 coll_impl!(<'w> BoxedLockCollection<&'w [Vec<R>; 2]>, "Boxed<&[Vec<RwLock>;2]> (new_ref)", rw);
+coll_impl!(<'w> BoxedLockCollection<[Vec<R>; 2]>, "Boxed<[Vec<RwLock>;2]> (owning)", rw);
 coll_impl!(<'w> RefLockCollection<'w, [Vec<R>; 2]>, "Ref<[Vec<RwLock>;2]> (new)", rw);
 coll_impl!(<'w> RetryingLockCollection<&'w [Vec<R>; 2]>, "Retrying<&[Vec<RwLock>;2]> (new_ref)", rw);
 // `&mut` members (they are OwnedLockable): happylock's `impl Lockable for &mut T`
